@@ -484,29 +484,41 @@ func (e *Env) evalSel(x ESel) (tval, error) {
 	if !ok {
 		return tval{}, fmt.Errorf("selector %s on non-struct %s", x.Name, t)
 	}
-	// find field (including promoted through embedded structs)
+	// find field (including promoted through embedded structs and embedded pointers)
 	path, ft := findField(st, x.Name, 0)
 	if path == nil {
 		return tval{}, fmt.Errorf("no field %s in %s", x.Name, t)
 	}
 	cur := st
 	off := 0
+	vals := v.C
 	for i, idx := range path {
-		off += e.l().fieldOffset(cur, idx)
+		foff := e.l().fieldOffset(cur, idx)
 		if i < len(path)-1 {
 			nt := cur.Field(idx).Type()
-			if _, isPtr := deref(nt); isPtr {
-				return tval{}, fmt.Errorf("promotion through embedded pointer not supported (%s)", x.Name)
+			if pt, isPtr := deref(nt); isPtr {
+				// embedded pointer: load it and continue in the pointee
+				var pv []string
+				if addr != nil {
+					pv = e.fr.load(e.st, []string{addr[0], e.vc().addSlot(addr[1], off+foff)}, nt)
+				} else {
+					pv = vals[off+foff : off+foff+2]
+				}
+				addr = pv
+				off = 0
+				cur = pt.Underlying().(*types.Struct)
+				continue
 			}
 			cur = nt.Underlying().(*types.Struct)
 		}
+		off += foff
 	}
 	if addr != nil {
 		fa := []string{addr[0], e.vc().addSlot(addr[1], off)}
 		return e.load(fa, ft, e.st), nil
 	}
 	n := e.l().sizeOf(ft)
-	return tval{T: ft, C: v.C[off : off+n]}, nil
+	return tval{T: ft, C: vals[off : off+n]}, nil
 }
 
 func findField(st *types.Struct, name string, depth int) ([]int, types.Type) {
@@ -523,7 +535,11 @@ func findField(st *types.Struct, name string, depth int) ([]int, types.Type) {
 		if !f.Embedded() {
 			continue
 		}
-		if es, ok := f.Type().Underlying().(*types.Struct); ok {
+		ft := f.Type()
+		if pt, isPtr := deref(ft); isPtr {
+			ft = pt
+		}
+		if es, ok := ft.Underlying().(*types.Struct); ok {
 			if p, t := findField(es, name, depth+1); p != nil {
 				return append([]int{i}, p...), t
 			}
@@ -824,7 +840,7 @@ func (e *Env) evalCall(x ECall) (tval, error) {
 			return tval{}, fmt.Errorf("iface of untyped value")
 		}
 		anyT := types.NewInterfaceType(nil, nil)
-		if _, isIface := v.T.Underlying().(*types.Interface); isIface {
+		if isIfaceT(v.T) {
 			return tval{T: anyT, C: v.C}, nil
 		}
 		tag := e.fr.eng.tagOf(v.T)
@@ -859,6 +875,13 @@ func (e *Env) evalCall(x ECall) (tval, error) {
 			return tval{}, fmt.Errorf("typeIs: unknown type %s", s.V)
 		}
 		return tval{T: boolT, C: []string{sEq(v.C[0], sInt(int64(tag)))}}, nil
+	}
+	if gs, isGhost := e.fr.eng.cs.Ghosts[x.Fun]; isGhost {
+		key, idx, srt, rt, err := e.ghostLoc(x, gs)
+		if err != nil {
+			return tval{}, err
+		}
+		return tval{T: rt, C: []string{e.vc().loadComp(e.st, srt, key, idx)}}, nil
 	}
 	sf, ok := e.fr.eng.cs.lookupSpec(e.pkgPath(), x.Fun)
 	if !ok {
@@ -959,4 +982,28 @@ func (vc *VC) declFunRaw(name string, args []Sort, ret Sort) {
 	}
 	vc.useSort(ret)
 	vc.decls = append(vc.decls, fmt.Sprintf("(declare-fun %s (%s) %s)", name, strings.Join(as, " "), ret))
+}
+
+// ghostLoc resolves name(obj, index) of a declared ghost channel to a location of its ghost memory
+func (e *Env) ghostLoc(x ECall, sortName string) (key, idx string, srt Sort, rt types.Type, err error) {
+	if len(x.Args) != 2 {
+		return "", "", "", nil, fmt.Errorf("ghost %s takes (object, index)", x.Fun)
+	}
+	o, err := e.eval(x.Args[0])
+	if err != nil {
+		return "", "", "", nil, err
+	}
+	i, err := e.eval(x.Args[1])
+	if err != nil {
+		return "", "", "", nil, err
+	}
+	rt = e.l().specType(sortName)
+	lay := e.l().layout(rt)
+	srt = Sort(string(lay[0]) + "#" + x.Fun)
+	if isIfaceT(o.T) && len(o.C) == 2 {
+		key = o.C[1] // identity of the boxed object
+	} else {
+		key = o.C[0]
+	}
+	return key, i.C[0], srt, rt, nil
 }
